@@ -27,7 +27,10 @@ def _filter_identifiers(filter_args):
             flags.add("decode")
         elif ident in filters.DEFAULT_ESCAPES:
             flags.add(ident)
-    return filter_args.undeclared_identifiers.difference(flags)
+    # (the variables of a comprehension in an argument are its own)
+    return filter_args.undeclared_identifiers.difference(flags).difference(
+        filter_args.declared_identifiers
+    )
 
 
 def _default_identifiers(function_decl, exception_kwargs):
